@@ -24,7 +24,7 @@ Inductive res (A : Type) : Type :=
 | Ok (a : A)
 | Err              (* pogs returns an error *)
 | Panic            (* Go would panic *)
-| Unmodelled       (* a pointer-typed element read out of a composite list (raw word decode, C03) *)
+| Unmodelled       (* unused since the composite-list pointer read is modelled (see ptrlist_elems) *)
 | OutOfFuel.
 Arguments Ok {A} a. Arguments Err {A}. Arguments Panic {A}. Arguments Unmodelled {A}.
 Arguments OutOfFuel {A}.
@@ -263,15 +263,18 @@ Definition primlist_elems (w : nat) (l : ptrval) : list (list bool) :=
   | _ => repeat (zeros w) (list_len l)
   end.
 
-(* PointerList.At / TextList.At / DataList.At: primitiveElem(i, {PointerCount: 1}) *)
+(* PointerList.At / TextList.At / DataList.At: primitiveElem(i, {PointerCount: 1}).
+   List upgrade: a composite list whose elements have a pointer section is read as a pointer list
+   through the FIRST pointer of every element (repo fix of the former defect F05; before it the
+   first data word was decoded as a pointer, which this model could not express: the outcome
+   Unmodelled is no longer produced by any definition). *)
 Definition ptrlist_elems (l : ptrval) : res (list ptrval) :=
   match l with
   | PPtrs ps => Ok ps
   | PStructs ss =>
-    (* composite with PointerCount >= 1: the word at the element start is decoded as a pointer *)
     match ss with
     | [] => Ok []
-    | s :: _ => if 1 <=? s_pcount s then Unmodelled else Err
+    | s :: _ => if 1 <=? s_pcount s then Ok (map (fun e => read_ptr e 0) ss) else Err
     end
   | _ => match list_len l with O => Ok [] | _ => Err end
   end.
